@@ -1,6 +1,7 @@
 package main
 
 import (
+	"encoding/json"
 	"crypto/tls"
 	"flag"
 	"io"
@@ -250,10 +251,10 @@ func shapeProbes(rng *rand.Rand, s Sem) []reqSpec {
 
 // scribbleServe serves a sample of the block's requests (unrecorded) through a handler that overwrites IN PLACE every element
 // of every request- and response-header slice it can reach: what the middleware put there must not be storage it still uses.
-func scribbleServe(m *cors.Middleware, reqs []reqSpec, dbg bool) {
+func scribbleServe(m *cors.Middleware, reqs []reqSpec, dbg bool, salt int) {
 	defer func() { recover() }() // panics are C17's business
 	words := scribbleWords
-	n := 0
+	n := salt // different words each time: what one scribbling leaves behind differs from what the next one leaves
 	scribbler := http.HandlerFunc(func(w http.ResponseWriter, r *http.Request) {
 		n++
 		scribbleHeader(w.Header(), words[n%len(words)])
@@ -567,22 +568,28 @@ var hung = false
 // configuration; all later requests of that middleware go through this one wrapped handler. The per-request spy is reached
 // through an indirection.
 type earlyWrap struct {
-	h     http.Handler
+	h     [2]http.Handler // two routes of one application: Wrap was called twice on the same middleware
 	inner http.Handler
+	n     int
 }
 
 var earlyWrapped = map[*cors.Middleware]*earlyWrap{}
 
 func wrapEarly(m *cors.Middleware) {
 	ew := &earlyWrap{}
-	ew.h = m.Wrap(http.HandlerFunc(func(w http.ResponseWriter, r *http.Request) { ew.inner.ServeHTTP(w, r) }))
+	for i := range ew.h {
+		ew.h[i] = m.Wrap(http.HandlerFunc(func(w http.ResponseWriter, r *http.Request) { ew.inner.ServeHTTP(w, r) }))
+	}
 	earlyWrapped[m] = ew
 }
 
+// handlerFor returns the handler a request goes through: one of the two early-wrapped ones (in alternation, so that both have
+// served before and after every state change) or a fresh Wrap.
 func handlerFor(m *cors.Middleware, spy http.Handler) http.Handler {
 	if ew := earlyWrapped[m]; ew != nil {
 		ew.inner = spy
-		return ew.h
+		ew.n++
+		return ew.h[ew.n%2]
 	}
 	return m.Wrap(spy)
 }
@@ -690,7 +697,36 @@ func emitServe(t *tracer, m *cors.Middleware, dbg bool, rs reqSpec, pre http.Hea
 		ev[k] = v
 	}
 	t.emit(ev)
+	// A response that the handler did not commit is only read by the server AFTER the middleware has returned: its header map
+	// must not change while other requests are served - by this or by any other middleware of the process.
+	if inner.Status == 0 && !inner.Reenter {
+		beforeJSON, _ := json.Marshal(hdrJSON(w.final())) // rendered NOW: the slices themselves may be what changes
+		var before map[string]any
+		json.Unmarshal(beforeJSON, &before)
+		for _, o := range lateOthers() {
+			o.ServeHTTP(newRec(), newReq("GET", http.Header{hOrigin: {"https://late.example"}}))
+			o.ServeHTTP(newRec(), newReq("POST", http.Header{hOrigin: {"https://other-late.example"}}))
+		}
+		if after := hdrJSON(w.final()); func() bool { a, _ := json.Marshal(after); return string(a) != string(beforeJSON) }() {
+			t.emit(map[string]any{"ev": "LateChange", "m": rs.Method, "req": hdrJSON(rs.H), "dbg": dbg, "before": before, "after": after,
+				"what": "the header map of a response that was not yet committed changed while other middlewares served requests"})
+		}
+	}
 	return false
+}
+
+// lateOthers: two other middlewares of the process with configurations unlike most (credentialed single origin with exposed
+// headers; allow-all with `*` exposed), each behind a handler that writes nothing.
+var lateMWs []http.Handler
+
+func lateOthers() []http.Handler {
+	if lateMWs == nil {
+		silent := http.HandlerFunc(func(http.ResponseWriter, *http.Request) {})
+		a, _ := cors.NewMiddleware(cors.Config{Origins: []string{"https://late.example"}, Credentialed: true, ResponseHeaders: []string{"x-late-a", "x-late-b"}})
+		b, _ := cors.NewMiddleware(cors.Config{Origins: []string{"*"}, ResponseHeaders: []string{"*"}})
+		lateMWs = []http.Handler{a.Wrap(silent), b.Wrap(silent)}
+	}
+	return lateMWs
 }
 
 // freshResponse serves the request on a middleware created for this one request from the same Config (and debug mode): the
@@ -904,15 +940,22 @@ func cmdServe(args []string) {
 		for _, dbg := range []bool{false, true} {
 			m.SetDebug(dbg)
 			noise(m)
-			scribbleServe(m, reqs, dbg)
+			scribbleServe(m, reqs, dbg, 0)
 			for vi, vr := range variants {
 				t.emit(map[string]any{"ev": "Block", "dbg": dbg, "variant": vi})
-				for _, rs := range reqs {
-					var extra map[string]any
-					if *fresh && !s.Pass {
-						extra = freshResponse(cfg, dbg, rs, vr.pre, vr.inner)
+				for ri, rs := range reqs {
+					if ri == len(reqs)/2 {
+						scribbleServe(m, reqs, dbg, 3+vi) // ... and in the middle of the block: identical requests before and after it
 					}
-					if emitServe(t, m, dbg, rs, vr.pre, vr.inner, extra) {
+					var extra map[string]any
+					inn := vr.inner
+					if inn == nil && ri%7 == 3 {
+						inn = silent // a handler that commits nothing: the server reads the headers after the middleware returned
+					}
+					if *fresh && !s.Pass {
+						extra = freshResponse(cfg, dbg, rs, vr.pre, inn)
+					}
+					if emitServe(t, m, dbg, rs, vr.pre, inn, extra) {
 						panics++
 					}
 					if hung {
